@@ -1,12 +1,13 @@
 """C18 - at most one writer per index; the lock follows the writer's lifetime.
 M: WriterLock model checked by TLC: every lifecycle of <= 7 user operations, creation rounds of
    up to 4 racing threads with every interleaving of lock acquisition and constructor (RaceLemma),
-   negative configurations (failed construction keeps the lock, rollback drops the guard,
-   check-then-create acquisition) must fail.
+   negative configurations (failed construction keeps the lock, rollback drops the guard, a failed
+   rollback gives the guard away, check-then-create acquisition) must fail.
 R: lifecycles printed by TLC (Gen_WriterLock) executed by lock_driver on the real code, on
    SimDir (lock file through the default acquire_lock), RamDirectory and MmapDirectory (flock):
    creation on two Index handles and from spawned threads, races behind a barrier, rollback with
-   a concurrent intruder, worker death (unindexable document / injected write fault), drop, wait.
+   a concurrent intruder, rollback that fails (injected read fault, SimDir), worker death
+   (unindexable document / injected write fault), zero threads through both entry points, drop, wait.
 T: every recorded run is judged by TLC against spec/WriterLockTrace.tla (results, who can still
    add + commit, existence of the lock file); plus the lock observations inside C02-style random
    histories (CoreTrace: new_writer fails iff a writer exists, no lock file after drop / wait)."""
@@ -21,13 +22,6 @@ from vlib import log
 from props import c02
 
 LEVEL = "model_checking"
-
-F19_TEXT = ("F19 a rollback() that fails (I/O error while the replacement writer is built) has already dropped the directory lock: "
-            "the old IndexWriter object stays alive without it, a second writer can be created next to it (two writer objects for one "
-            "directory) and the next rollback() of the first one panics ('The IndexWriter does not have any lock')")
-
-F20_TEXT = ("F20 Index::writer_with_num_threads(0, budget) panics (attempt to divide by zero) instead of returning InvalidArgument; "
-            "the directory lock is not touched (the panic happens before acquire_lock)")
 
 DIRS = ["sim", "ram", "mmap"]
 
@@ -61,19 +55,16 @@ def model_checking(ctx):
         vlib.mc_check(ctx, "MC_WriterLock", "MC_WriterLock_t4.cfg", timeout=600, workers=6, heap="6g")
     for cfg, inv in (("MC_WriterLock_negctor.cfg", "LockFreeIffNoWriter"), ("MC_WriterLock_negroll.cfg", "AtMostOneWriter"),
                      ("MC_WriterLock_negrace.cfg", "RaceLemma"), ("MC_WriterLock_reach.cfg", "ReachTwoAttemptsOneWinner"),
-                     # the recorded finding at model level: with the failing path of rollback two writer objects coexist
-                     ("MC_WriterLock_kf_failroll.cfg", "AtMostOneWriter")):
+                     # the code before the repair of rollback: a failed rollback gave the guard away -> two writer objects
+                     ("MC_WriterLock_negfailroll.cfg", "AtMostOneWriter")):
         vlib.mc_check(ctx, "MC_WriterLock", cfg, expect_violation=inv, timeout=120, workers=2, heap="2g")
     r = ctx.cov["tlc_runs"][0]
     ctx.cov["model"] = f"all lifecycles <= 7 operations, 2 handles, 2 racing threads: {r['distinct']} states; 3 threads <= 5 operations; negative configurations fail as required"
 
 
-def gen_lifecycles(ctx, n, max_race, max_steps, seed, failroll=False):
+def gen_lifecycles(ctx, n, max_race, max_steps, seed):
     cfg = open(os.path.join(vlib.SPEC, "Gen_WriterLock.cfg")).read()
     cfg = cfg.replace("MaxRace = 4", f"MaxRace = {max_race}").replace("MaxSteps = 7", f"MaxSteps = {max_steps}")
-    if failroll:
-        cfg = cfg.replace("AllowFailedRollback = FALSE", "AllowFailedRollback = TRUE")
-        cfg = "\n".join(x for x in cfg.split("\n") if not x.startswith("INVARIANT"))
     name = f"Gen_WriterLock_{ctx.prop}_{os.getpid()}.cfg"
     open(os.path.join(vlib.SPEC, name), "w").write(cfg)
     try:
@@ -107,6 +98,11 @@ def fixed_tour():
         [{"op": "race", "hs": ["A", "B"], "bad": ["none", "none"]}, {"op": "race", "hs": ["A", "B", "A"], "bad": ["none", "none", "none"]}, {"op": "drop", "w": 1},
          {"op": "race", "hs": ["A", "A", "B", "B"], "bad": ["none", "none", "none", "none"]}, R(2, True), {"op": "kill", "w": 2, "how": "fault"}, {"op": "wait", "w": 2},
          {"op": "race", "hs": ["B", "A", "B", "A"], "bad": ["budget", "none", "threads0", "none"]}],
+        # rollback that fails (SimDir: injected read fault; elsewhere skipped): the writer object keeps the lock
+        [C("A"), {"op": "failroll", "w": 1}, C("B"), R(1), C("B", spawn=True), {"op": "kill", "w": 1, "how": "fault"}, {"op": "failroll", "w": 1}, C("A"), R(1, True),
+         {"op": "failroll", "w": 1}, {"op": "drop", "w": 1}, C("B")],
+        # zero threads through both entry points, on a free and on a held lock
+        [C("A", "threads0n"), C("B", "threads0"), C("A"), C("B", "threads0n"), C("A", "threads0n", spawn=True), {"op": "wait", "w": 1}, C("B", "threads0n")],
         [C("B"), {"op": "kill", "w": 1, "how": "schema"}, {"op": "wait", "w": 1}, C("A"), {"op": "kill", "w": 2, "how": "fault"}, R(2, True), {"op": "kill", "w": 2, "how": "schema"},
          R(2), R(2), {"op": "drop", "w": 2}],
     ]
@@ -141,7 +137,7 @@ def judge(ctx, runs, label):
 def tally(ctx, runs):
     t = ctx.cov.setdefault("observed", {"creations_ok": 0, "creations_LockBusy": 0, "creations_InvalidArgument": 0, "rounds_of_2_to_4_threads": 0,
                                         "rounds_with_exactly_one_winner": 0, "rollbacks": 0, "rollbacks_with_intruder_thread": 0, "worker_deaths": 0,
-                                        "drops": 0, "waits": 0, "skips": 0, "runs_per_dir": {}})
+                                        "drops": 0, "waits": 0, "skips": 0, "failed_rollbacks": 0, "zero_thread_attempts": 0, "runs_per_dir": {}})
     for r in runs:
         d = r[0].get("dir")
         t["runs_per_dir"][d] = t["runs_per_dir"].get(d, 0) + 1
@@ -150,81 +146,19 @@ def tally(ctx, runs):
                 for x in e["res"]:
                     k = "creations_" + x
                     t[k] = t.get(k, 0) + 1
+                t["zero_thread_attempts"] += sum(1 for b in e["bad"] if b.startswith("threads0"))
                 if len(e["res"]) > 1:
                     t["rounds_of_2_to_4_threads"] += 1
                     t["rounds_with_exactly_one_winner"] += 1 if e["res"].count("ok") == 1 else 0
             elif e["ev"] == "rollback":
                 t["rollbacks"] += 1
                 t["rollbacks_with_intruder_thread"] += 1 if e.get("contend") else 0
+            elif e["ev"] == "failroll":
+                t["failed_rollbacks"] += 1 if e["res"] not in ("ok", "panic") else 0
             elif e["ev"] == "kill":
                 t["worker_deaths"] += 1
             elif e["ev"] in ("drop", "wait", "skip"):
                 t[e["ev"] + "s"] += 1
-
-
-def known_finding_runs(ctx):
-    """F19: dedicated reproduction (the default generator never makes rollback fail)."""
-    cases = [[C("A"), {"op": "failroll", "w": 1}, C("B"), {"op": "rollback", "w": 1, "contend": False}, {"op": "drop", "w": 1}, {"op": "drop", "w": 2}],
-             [C("B"), {"op": "kill", "w": 1, "how": "fault"}, {"op": "failroll", "w": 1}, C("A", spawn=True), {"op": "wait", "w": 2}, {"op": "rollback", "w": 1, "contend": False}]]
-    cases += gen_lifecycles(ctx, 12 if ctx.quick else 80, 1, 6, ctx.seed + 5, failroll=True)
-    cases = [c for c in cases if any(o["op"] == "failroll" for o in c)]
-    runs = execute(ctx, cases, "kf", dirs=["sim"])
-    rep = ctx.cov.setdefault("known_finding_reproductions", {})
-    strict_rej, mirrored, two = 0, 0, 0
-    for i, run in enumerate(runs):
-        p = ctx.path(f"kf_{i}.ndjson")
-        vlib.write_ndjson(p, run)
-        rs = vlib.run_tlc("WriterLockTrace", "WriterLockTrace.cfg", workers=1, timeout=120, trace=p, deque=True, heap="2g")
-        rk = vlib.run_tlc("WriterLockTrace", "WriterLockTrace_kf.cfg", workers=1, timeout=120, trace=p, deque=True, heap="2g")
-        ctx.add_tlc(f"kf_{i}", rk, kind="trace")
-        if rs.tool_error and not rs.rejected and not rs.violated:
-            log(rs.out[-3000:])
-            raise vlib.ToolError("TLC failed on the F19 reproduction")
-        fr = next((e for e in run if e["ev"] == "failroll"), None)
-        if fr is None or fr["res"] in ("ok", "panic"):
-            continue                      # the fault did not make rollback fail: nothing to report
-        if not rs.ok:
-            strict_rej += 1
-        if rk.ok and rk.kf:
-            mirrored += 1
-        elif not rk.ok:
-            # not explained by the recorded behaviour either: an ordinary violation
-            outp = ctx.path(f"kf_{i}.tlc.out")
-            open(outp, "w").write(rk.out)
-            why = rk.rejected[0][1][:1200] if rk.rejected else ", ".join(rk.violated)
-            ctx.violation("WriterLockTrace (failed rollback, behaviour of F19 mirrored): still unexplained: " + why, [p, outp], json.dumps(run)[:3000])
-        if any(len(e.get("live", [])) > 1 for e in run):
-            two += 1
-        if not rs.ok and i == 0:
-            ctx.violation(F19_TEXT, [p], "SimDir, one transient fault on the atomic_read of meta.json inside rollback():\n" +
-                          "\n".join(json.dumps({k: v for k, v in e.items() if k in ("ev", "res", "w", "live", "lockfile", "hs")}) for e in run[:8]))
-    zero_threads(ctx, rep)
-    rep["F19"] = f"{strict_rej} of {len(runs)} runs rejected by the property; {mirrored} accepted by the variant of the specification that mirrors the defect; {two} runs with two writer objects alive"
-    if strict_rej == 0:
-        rep["F19"] += " (NOT reproduced)"
-
-
-def zero_threads(ctx, rep):
-    """F20: zero threads through writer_with_num_threads (the generators use writer_with_options for that)"""
-    cases = [[C("A", "threads0n"), C("A"), C("B", "threads0n"), {"op": "rollback", "w": 1, "contend": False}, C("A", "threads0n", spawn=True)]]
-    runs = execute(ctx, cases, "kf20")
-    panics = sum(1 for r in runs for e in r if e["ev"] == "race" and "panic" in e["res"])
-    attempts = sum(1 for r in runs for e in r if e["ev"] == "race" and "threads0n" in e["bad"])
-    # without the panicking attempts the runs must be ordinary accepted runs: the panic left the lock alone
-    rest = [[e for e in r if not (e["ev"] == "race" and "panic" in e["res"])] for r in runs]
-    p = ctx.path("kf20_rest.ndjson")
-    vlib.write_ndjson(p, [e for r in rest for e in r])
-    ok, r = vlib.validate_trace(ctx, "WriterLockTrace", "WriterLockTrace.cfg", p, name="kf20_rest")
-    rep["F20"] = f"{panics} of {attempts} attempts with zero threads through writer_with_num_threads panicked; the remaining events of the {len(runs)} runs are {'accepted' if ok else 'REJECTED'}"
-    if panics:
-        p0 = ctx.path("kf20_0.ndjson")
-        vlib.write_ndjson(p0, runs[0])
-        ctx.violation(F20_TEXT, [p0], "\n".join(json.dumps({k: v for k, v in e.items() if k in ("ev", "res", "bad", "hs", "live", "lockfile")}) for e in runs[0][:6]))
-    if not ok:
-        outp = ctx.path("kf20_rest.tlc.out")
-        open(outp, "w").write(r.out)
-        ctx.violation("WriterLockTrace: after a panicking creation attempt (zero threads) the lock state is not the one before it: " +
-                      (r.rejected[0][1][:1000] if r.rejected else ", ".join(r.violated)), [p, outp], "")
 
 
 def core_lock_observations(ctx):
@@ -341,7 +275,6 @@ def run(ctx):
     n = judge(ctx, runs, "gen")
     log(f"[R] {len(cases)} lifecycles x {len(DIRS)} directory kinds = {len(runs)} runs on the real code, {n} accepted")
     core_lock_observations(ctx)
-    known_finding_runs(ctx)
     binding_selftest(ctx, runs)
     ctx.sample({"kind": "TLC-generated lifecycle", "ops": cases[len(fixed_tour())]})
     r = next((r for r in runs if r[0].get("dir") == "mmap" and nontrivial(r)), runs[0])
@@ -354,17 +287,6 @@ def replay(ctx, path):
     for f in files:
         evs = vlib.read_ndjson(f)
         if evs and evs[0].get("ev") == "reset" and "dir" in evs[0]:
-            for i, run in enumerate(vlib.split_runs(clean(evs))):
-                if any(e["ev"] == "race" and "threads0n" in e["bad"] and "panic" in e["res"] for e in run):
-                    ctx.violation(F20_TEXT, [f], json.dumps(run[:6])[:3000])
-                elif any(e["ev"] == "failroll" and e.get("res") not in ("ok", "panic") for e in run):
-                    # the recorded finding: reported under its stable text
-                    p = ctx.path(f"replay_{i}.ndjson")
-                    vlib.write_ndjson(p, run)
-                    ok, r = vlib.validate_trace(ctx, "WriterLockTrace", "WriterLockTrace.cfg", p, name=f"replay_{i}")
-                    if not ok:
-                        ctx.violation(F19_TEXT, [p], json.dumps(run[:8])[:3000])
-                else:
-                    tracecheck.validate_runs(ctx, [run], f"replay_{i}", "WriterLockTrace", "WriterLockTrace.cfg")
+            tracecheck.validate_runs(ctx, vlib.split_runs(clean(evs)), "replay", "WriterLockTrace", "WriterLockTrace.cfg")
         else:
             c02.validate_runs(ctx, evs, "replay")
